@@ -3,8 +3,6 @@ package orbitdb
 import (
 	"encoding/json"
 
-	"berty.tech/go-ipfs-log/entry"
-	idp "berty.tech/go-ipfs-log/identityprovider"
 	"berty.tech/go-orbit-db/iface"
 	"berty.tech/go-orbit-db/internal/vstub"
 )
@@ -22,8 +20,16 @@ func c03Ids(name string) []string {
 	var list []string
 	n := vstub.NdChoice(name+"Len", 3)
 	for k := 0; k < n; k++ {
-		id := vstub.NdString(name, 1)
-		vstub.Assume(id != "*")
+		var id string
+		switch vstub.NdChoice(name+"Kind", 3) {
+		case 0:
+			id = vstub.NdString(name, 1)
+			vstub.Assume(id != "*")
+		case 1:
+			id = vstub.IDOf("a")
+		case 2:
+			id = vstub.IDOf("b")
+		}
 		list = append(list, id)
 	}
 	if vstub.NdChoice(name+"Wildcard", 2) == 1 {
@@ -41,8 +47,9 @@ func member(list []string, id string) bool {
 	return false
 }
 
-// VerifC03CanAppend: the orbitdb controller admits an entry iff its identity id
-// is in the write or admin capability (or one of them holds the wildcard).
+// VerifC03CanAppend: the orbitdb controller admits an entry iff the id its
+// identity block claims is in the write or admin capability (or one of them
+// holds the wildcard) AND the claim is genuine.
 func VerifC03CanAppend() {
 	write := c03Ids("write")
 	admin := c03Ids("admin")
@@ -53,12 +60,10 @@ func VerifC03CanAppend() {
 	if len(admin) > 0 {
 		kv.m["admin"], _ = json.Marshal(admin)
 	}
-	id := vstub.NdString("author", 1)
-	vstub.Assume(id != "*")
+	e, id, genuine := vstub.AuthorEntry(vstub.NdChoice("author", vstub.AuthorKinds))
 	ac := &orbitDBAccessController{kvStore: kv}
-	e := &entry.Entry{Identity: &idp.Identity{ID: id, PublicKey: []byte("pk")}}
 	err := ac.CanAppend(e, vstub.NewProvider(), nil)
-	want := member(write, id) || member(admin, id)
+	want := (member(write, id) || member(admin, id)) && genuine
 	vstub.Cover("decided")
-	vstub.Assert((err == nil) == want, "C03 orbitdb controller admits exactly the ids holding the write or admin capability")
+	vstub.Assert((err == nil) == want, "C03 orbitdb controller admits exactly the genuine authors whose id holds the write or admin capability")
 }
